@@ -122,7 +122,11 @@ pub fn check_result(
     }
     // reported sequence: exactly monotone (arroy's sort key -> reported value is monotone)
     let any_nan = res.iter().any(|(_, d)| d.is_nan());
-    if !any_nan {
+    // with non-finite operands a NaN score can be reported as a number (e.g. NaN.max(0.0) == 0.0):
+    // "nearest first" is only meaningful where every operand is finite
+    let finite_operands = q.iter().all(|x| x.is_finite())
+        && res.iter().all(|(id, _)| cx.items.get(id).map_or(true, |v| v.iter().all(|x| x.is_finite())));
+    if !any_nan && (finite_operands || cx.metric.is_bq()) {
         for w in res.windows(2) {
             let (a, b) = (key(cx.metric, w[0].1 as f64), key(cx.metric, w[1].1 as f64));
             if a > b {
